@@ -147,6 +147,19 @@ def run_schema(S, tier, seed, configs, wd, extra_cfg="", machine="view", shapes_
         else:
             res["runs"].append({"config": list(cfg), "stat": r[1], "mismatches": r[0]})
 
+    # ---- constant evaluation: decode vectors as static_asserts (C++20)
+    res["constexpr"] = []
+    if machine == "view":
+        cxsrc, ncx = viewgen.CxGen(S).source(vectors if tier == "thorough" else vectors[:400], 4000 if tier == "quick" else 40000)
+        cxp = os.path.join(sdir, "cx_%s.cpp" % name)
+        vlib.write(cxp, cxsrc)
+        for comp in (("g++", "clang++") if tier == "thorough" else ("g++",)):
+            ok, out = try_cxx(cxp, flags=["-std=c++20", "-w", "-fconstexpr-ops-limit=1000000000" if comp == "g++" else "-fconstexpr-steps=500000000"],
+                              compiler=comp, includes=[inc], syntax_only=True, name="viewcx-%s" % name)
+            fails = [l.strip() for l in out.splitlines() if "static assertion failed" in l or "static_assert failed" in l or "non-constant condition" in l or "not a constant expression" in l]
+            res["constexpr"].append({"config": [comp, "c++20"], "asserts": ncx, "ok": ok, "fails": fails[:40],
+                                     "other": "" if ok or fails else out[-2500:]})
+
     # ---- code -> spec: recorded random in-order encodings validated by ViewTrace.tla
     res["traces"] = []
     if machine == "view" and res["runs"]:
@@ -234,6 +247,25 @@ def fold(v, results, want, prop_note):
         for cf in res["compile_failures"]:
             v.violation("compile/%s/%s-%s" % (res["schema"], cf["config"][0], cf["config"][1]),
                         "harness/dispatch does not compile against the generated headers:\n" + cf["out"][-1500:])
+        for cx in res.get("constexpr", []):
+            if cx["ok"]:
+                v.part("constexpr_%s_%s" % (res["schema"], cx["config"][0]), static_asserts=cx["asserts"])
+                v.add(evaluations=cx["asserts"])
+            elif want({"aspect": "value"}, "decode/constexpr/%s" % res["schema"]):
+                if cx["fails"]:
+                    import re as _re
+                    seen = set()
+                    for l in cx["fails"]:
+                        mm = _re.search(r"cx (\S+?):(\S*?):(\S+) ", l) or _re.search(r"cx (\S+?):size", l)
+                        key = mm.group(0).strip() if mm else "unparsed"
+                        if key in seen:
+                            continue
+                        seen.add(key)
+                        v.violation("decode/constexpr/%s:%s" % (res["schema"], key.replace("cx ", "")),
+                                    "[%s c++20] constant evaluation disagrees with the encoder: %s" % (cx["config"][0], l[:400]), {"line": l})
+                else:
+                    v.violation("decode/constexpr-compile/%s/%s" % (res["schema"], cx["config"][0]),
+                                "static_assert TU does not compile for another reason:\n" + cx["other"][-1500:])
         for t in res.get("traces", []):
             if t["accepted"]:
                 v.add(traces_validated_against_impl=t.get("episodes", 0))
